@@ -1236,6 +1236,20 @@ static void build_large (int thorough, const char *which)
 				if (k & 1) add_scen (c0, "Sa-,F");
 			}
 	}
+	if (strstr (which, "rs")) {
+		/* mid-range diagonal: every k with a number of repair symbols well inside the range (derived from k), and the k == n-k diagonal:
+		 * the last k symbols, a window in the middle, a periodic pattern, one / two sources replaced */
+		int k, codec, v;
+		for (codec = 1; codec <= 2; codec++)
+			for (k = 2; k <= 252; k += thorough ? 1 : (k < 40 ? 1 : 2)) for (v = 0; v < 2; v++) {
+				int r = v ? k : 2 + (k * 11) % (253 - k);
+				if (v && (k > 127 || (!thorough && k % 3))) continue;
+				c0 = NCF; add_cfg (codec, 8, k, r, 0, 0, 4, 0, 0, 0);
+				add_scen (c0, "Sw%d+%d,F", r, k); add_scen (c0, "Bw%d+%d", r / 2, k); add_scen (c0, "Sw%d+%d,F", r / 2, k - 1);
+				add_scen (c0, "Rx%d/%d,F", k / 3, k + r / 2); add_scen (c0, "Sx0.%d/%d.%d,F", k - 1, k + r / 3, k + r - 1);
+				if (r >= 3) add_scen (c0, "Sp3.%d,F", k % 3);
+			}
+	}
 	if (strstr (which, "ldpc")) {
 		/* r sweep and k sweep: every number of repair symbols 3..130 (k=40) and every k 3..300 (r=20), a few ML-needing patterns each */
 		int k, r;
@@ -1330,6 +1344,19 @@ static void build_lens (int thorough, const char *which)
 					add_scen (c0, "Sw%d+%d,F", r, k); add_scen (c0, "Bw%d+%d,F", r, k); add_scen (c0, "D0,D0,D%d,D%d,F", k, k);
 				}
 			}
+	{	/* mid-range sweep: EVERY symbol length 41..2100 (thorough ..4200), configuration / alignment / callback rotating with the
+		 * length (thorough: every configuration at every length): lengths that are neither small nor next to a power of two */
+		int L, Lmax = thorough ? 4200 : 2100, nb = (int) (sizeof base / sizeof base[0]);
+		for (L = 41; L <= Lmax; L++) for (bi = 0; bi < nb; bi++) {
+			long c0; int k = base[bi][2], r = base[bi][3];
+			if (!thorough && bi != L % nb) continue;
+			if (!strstr (which, base[bi][0] == 3 ? "ldpc" : "rs")) continue;
+			c0 = NCF; add_cfg (base[bi][0], base[bi][1], k, r, base[bi][4], base[bi][5], 0, (L / nb) % 3 == 0 ? 0 : (L / nb) % 8, (L / 7) & 1, 0);
+			CF[c0].len = L;
+			add_scen (c0, "Aa-,F"); add_scen (c0, "Sa-0,F"); add_scen (c0, "Ba-0.1"); add_scen (c0, "Ra-0,F"); add_scen (c0, "Sw%d+%d,F", 1, k);
+			add_scen (c0, "Sw%d+%d,F", r, k); add_scen (c0, "Bw%d+%d,F", r, k); add_scen (c0, "D0,D0,D%d,D%d,F", k, k);
+		}
+	}
 	if (strstr (which, "2d")) {	/* 2D parity with long symbols: every received subset on the three smallest codes, loss families on the others */
 		static const int L2[] = {100, 127, 128, 129, 255, 256, 257, 512, 1000, 1024, 4096, 65536};
 		int k, r, e;
